@@ -128,7 +128,7 @@ class CallsMixin:
                 binds[pnames[0]] = recv[0]; pnames = pnames[1:]
             for pn, v in zip(pnames, argv):
                 binds[pn] = v
-            rn = c.get('returns_struct')
+            rn = c.get('results') or c.get('returns_struct')
             rnames = rn[0].text.replace(',', ' ').split() if rn else (['result'] if len(rtypes) == 1 else ['result%d' % i for i in range(len(rtypes))])
         old = st.clone()
         env_pre = SpecEnv(st, binds, old)
@@ -177,16 +177,48 @@ class CallsMixin:
 
     def run_hint(self, st, env, text, cl):
         text = text.strip()
+        m = re.match(r'(.*)\s+if\s+(.*)$', text, re.S)
+        if m and not text.startswith('assert') and text.count('(') >= 1 and m.group(1).count('(') == m.group(1).count(')'):
+            g = self.sev_bool(env, speclang.parse_expr(m.group(2)))
+            st.guards.append(g)
+            try:
+                self.run_hint(st, env, m.group(1), cl)
+            finally:
+                st.guards.pop()
+            return
         m = re.match(r'use\s+(\w+)\s*\((.*)\)\s*$', text, re.S)
         if m:
             self.use_lemma(st, env, m.group(1), [speclang.parse_expr(a) for a in speclang.split_top(m.group(2), ',') if a.strip()], cl)
+            return
+        m = re.match(r'unfold\s+(\w+)\s*\((.*)\)\s*$', text, re.S)
+        if m:
+            name = m.group(1)
+            p = self.spec.pures[name]
+            argv = [self.sev(env, speclang.parse_expr(a)) for a in speclang.split_top(m.group(2), ',') if a.strip()]
+            lhs = self.spec_pure(env, name, argv)
+            binds = {pn: v for (pn, pt), v in zip(p['params'], argv)}
+            rhs = self.sev(SpecEnv(env.st, binds, env.old), p['body'].expr)
+            st.assume(self.equal(st, lhs, rhs))
             return
         m = re.match(r'split\s*\((.*)\)\s*$', text, re.S)
         if m:
             self.use_seq = True
             a = [self.sev(env, speclang.parse_expr(x)) for x in speclang.split_top(m.group(1), ',')]
             x = a[0]
-            st.assume(split_fact(x.arr, x.off + a[1], x.off + a[2], x.off + a[3]))
+            l, k, h = [z3.simplify(x.off + t) for t in a[1:4]]
+            st.assume(split_fact(x.arr, l, k, h))
+            for (p, q) in ((l, k), (k, h), (l, h)):
+                for f in sl_facts(x.arr, p, q):
+                    st.assume(f)
+            return
+        m = re.match(r'ext\s*\((.*)\)\s*$', text, re.S)
+        if m:      # extensionality of the sequence abstraction: equal elements => equal sequences (premise is an obligation)
+            self.use_seq = True
+            x, y = [self.sev(env, speclang.parse_expr(a)) for a in speclang.split_top(m.group(1), ',')]
+            k = fresh('k!ext')
+            prem = z3.And(x.len == y.len, z3.ForAll([k], z3.Implies(z3.And(0 <= k, k < x.len), z3.Select(x.arr, x.off + k) == z3.Select(y.arr, y.off + k))))
+            self.oblige(st, 'ext-pre@%s:%d' % (cl.file.split('/')[-1], cl.line), prem)
+            st.assume(sl(x.arr, x.off, x.off + x.len) == sl(y.arr, y.off, y.off + y.len))
             return
         m = re.match(r'ghost\s+(.*)$', text, re.S)
         if m:
@@ -229,6 +261,15 @@ class CallsMixin:
         raise Unsupported('ghost clause %r' % cl.text)
 
     def havoc_target(self, st, env, target):
+        if target[0] == 'id' and ('ghostvar', target[1]) in st.ghost:
+            cur = st.ghost[('ghostvar', target[1])]
+            if isinstance(cur, SeqV):
+                st.ghost[('ghostvar', target[1])] = SeqV(fresh('hv.' + target[1], ByteSeq))
+            elif isinstance(cur, z3.ExprRef):
+                st.ghost[('ghostvar', target[1])] = fresh('hv.' + target[1], cur.sort())
+            else:
+                raise Unsupported('havoc of ghost variable %s' % target[1])
+            return
         if target[0] == 'sel':
             x = self.sev(env, target[1])
             if isinstance(x, PtrV):
@@ -282,7 +323,7 @@ class CallsMixin:
         pairs = list(zip(old, new))
         for hk in list(st.heap):
             a = st.heap[hk]
-            if z3.is_array_sort(a.sort().range()):
+            if z3.is_array(z3.Select(a, 0)):
                 st.heap[hk] = z3.substitute(a, *pairs)
 
     def adjust_recv(self, st, recv, want_tid):
@@ -372,7 +413,29 @@ class CallsMixin:
         return vals[0] if len(vals) == 1 else TupleV(vals)
 
     def call_opaque(self, st, fv, args, e):
-        raise Unsupported('call through function value @%s' % e.get('line'))
+        """call through a function value: the callee is unknown.  `oncall <name>: assert P(a0, a1, ...)` clauses of the
+        function under verification state what must hold of the arguments; results are arbitrary; tracked state is
+        assumed untouched (listed assumption)."""
+        f = e['Fun']
+        nm = f['Sel']['Name'] if f['_'] == 'SelectorExpr' else (f.get('Name') or '?')
+        argv = [self.ev(st, a) for a in args]
+        binds = {'a%d' % i: v for i, v in enumerate(argv)}
+        matched = False
+        if self.frame and self.frame.contract:
+            for cl in self.frame.contract.get('oncall'):
+                m = re.match(r'(\w+)\s*:\s*(.*)$', cl.text, re.S)
+                if m and m.group(1) == nm:
+                    matched = True
+                    self.run_hint(st, SpecEnv(st, binds, st.entry), m.group(2), cl)
+        if not matched:
+            raise Unsupported('call through function value %s @%s without an oncall clause' % (nm, e.get('line')))
+        self.assumed.add('callback %s does not modify tracked state' % nm)
+        tid = e.get('t')
+        rtypes = []
+        if tid is not None and tid >= 0:
+            rtypes = self.tt[tid]['es'] if self.tt.kind(tid) == 'tuple' else [tid]
+        results = [self.lay.fresh(t, 'cb') for t in rtypes]
+        return results[0] if len(results) == 1 else TupleV(results)
 
     # -- conversions ------------------------------------------------------------------------------
     def convert(self, st, v, from_tid, to_tid, line, argnode=None):
